@@ -70,7 +70,7 @@ def one(emit, cid, fam, rng, sample):
     shape = str(rng.choice(["n>p", "n<p"]))
     p = int(rng.integers(4, 14))
     n = p + int(rng.integers(5, 25)) if shape == "n>p" else max(4, p - int(rng.integers(1, 3)))
-    X = C.make_X(rng, n, p, str(rng.choice(["gauss", "ar", "shifted"])), rho=float(rng.choice([0.5, 0.95])))
+    X = C.make_X(rng, n, p, str(rng.choice(["gauss", "ar", "shifted", "scaled", "centered"])), rho=float(rng.choice([0.5, 0.95])))
     frac = float(rng.choice([1e-3, 1e-2, 0.1, 0.5, 0.9]))
     tol = 1e-8
     icpt = bool(rng.integers(0, 2))
@@ -258,6 +258,14 @@ def one(emit, cid, fam, rng, sample):
     viols = []
     n_claims = 0
     for k, (wk, claim, is_sk) in res.items():
+        if is_sk and claim is None and np.all(np.isfinite(wk)) and prob.__class__ is R.RefProblem and \
+                prob.df.kind != "pinball":
+            # "every applicable solver reaches that same optimum": restated as bounded progress — the budgets above
+            # are 10-100x what these small problems need, so a run that is still far from stationary has failed
+            cert = prob.cert_subdiff(wk)[0]
+            if cert > 1e-5:
+                viols.append(dict(mechanism="does-not-reach-optimum-within-budget", family=fam, implementation=k, cert=cert,
+                                  detail="%s: reference violation %.3g after the generous budget" % (k, cert)))
         if not is_sk or claim is None:
             continue
         if not np.all(np.isfinite(wk)):
